@@ -227,8 +227,24 @@ func ext۰strconv۰Itoa(fr *frame, args []value) value {
 }
 func ext۰strconv۰FormatFloat(fr *frame, args []value) value {
 	if f, ok := args[0].(symF64); ok {
+		// the text stands for the float it renders: with bitSize 32 that is the value rounded to binary32.
+		// Format and precision other than ('f', 8) are not modelled.
+		if fm, ok := args[1].(byte); !ok || fm != 'f' {
+			panic(unsupported("strconv.FormatFloat of a symbolic float with a format other than 'f'"))
+		}
+		if pr, ok := args[2].(int); !ok || pr != 8 {
+			panic(unsupported("strconv.FormatFloat of a symbolic float with a precision other than 8"))
+		}
+		t := f.t
+		switch bs, _ := args[3].(int); bs {
+		case 64:
+		case 32:
+			t = fr.i.tc.mkF("f32round", SF64, t)
+		default:
+			panic(unsupported("strconv.FormatFloat of a symbolic float with an unusual bit size"))
+		}
 		st := fr.i.newSymStr("strconv.FormatFloat")
-		st.kind, st.t = "f64", f.t
+		st.kind, st.t = "f64", t
 		return st
 	}
 	return strconv.FormatFloat(args[0].(float64), args[1].(byte), args[2].(int), args[3].(int))
